@@ -33,6 +33,20 @@ mod h {
         let mut rng = FixedRng;
         let r = RangeConstraintBuilder::generate_constraint_commitments(v, &p, &mut rng);
         assert_eq!(r.is_err(), v < 0);
+        if r.is_ok() {
+            // exactness of the base-128 decomposition for EVERY accepted value (hook: the digits the prover used)
+            let d = zkchannels_crypto::proofs::verif_digits::last();
+            let mut sum: u128 = 0;
+            let mut w: u128 = 1;
+            let mut j = 0;
+            while j < 9 {
+                assert!(d[j] < 128);
+                sum += d[j] as u128 * w;
+                w *= 128;
+                j += 1;
+            }
+            assert!(sum == v as u128);
+        }
     }
 
     /// vacuity witness: must FAIL
